@@ -12,7 +12,10 @@ WORDS = ['ſelect', 'ﬁrst', 'ınsert', 'İnsert', 'straße', 'ΟΔΟΣ', 'ΣΑ
 STRINGS = ["'abc'", "'abcdefghij'", "''", "'a'", "'ab''cd'", "'ab''cdef'", "''abcdef''", "'''abc'''", "''''",
            "'''abcdefgh'''", "'a\\'bcdef'", "'x\ny\nzzzz'", "'ΣΑΣ straße'", "'😀😀😀😀😀'", "'ab", "ab'", "'abc''",
            "'aaaaaaaaaaaaaaaaaaaaaaaaaaaaaaaaaaaaaaaaaa'", "'[...]'", "'ab[...]'", "'abcd[...]'", "'....'",
-           "E'abcdef'", "N'abcdef'", "x'ABCDEF'", "'1234567'", "'--abcdef'", "'/*abcd*/'", "';;;;;;'"]
+           "E'abcdef'", "N'abcdef'", "x'ABCDEF'", "'1234567'", "'--abcdef'", "'/*abcd*/'", "';;;;;;'",
+           # decomposed text: combining marks directly at / after typical cut positions
+           "'Andre\u0301 Gide'", "'ab\u0301\u0308cdefgh'", "'a\u0301b\u0301c\u0301d\u0301e\u0301'", "'abcde\u0301'",
+           "'\u1112\u1161\u11ab\u1100\u1173\u11af abc'", "'e\u0301'", "'ab\u200dcd\u200befgh'", "'👍🏽👍🏽👍🏽'"]
 QNAMES = ['"Quoted"', '"a""b"', '" Lead"', '""', '"ŉ"', '`Back`', '`ŉx`', '´Acute´', '[Br Name]', '[ŉ]', ' "x"',
           '"abc', 'abc"', '"a\\"b"', '[a]', 'x[Idx]', '@Var', '##Tmp', '#T1', ':Ph', '$1', '%s', '%(Nm)s', '?']
 KWS = ["at time zone 'Europe/Berlin'", "AT TIME ZONE 'utc'", "with' time zone 'X'", 'Order  By', 'group\tby',
